@@ -107,14 +107,18 @@ def Tap.nextBlock (t : Tap) : TR Bool × Tap :=
       | (.error e, t3) => (.stop (.err (.io e)), t3)
       | (.ok (), t3) => (.ok true, { t3 with bufOff := 0, read := 0, block := some bs })
 
-/-- `rewind` -/
+/-- `rewind`: on success the deck forgets where it was stopped and a running deck starts over -/
 def Tap.rewind (t : Tap) : TR Unit × Tap :=
   let t1 := { t with currBit := false, currByte := 0, read := 0, bufOff := 0, block := none, delay := 0 }
   match t1.a.seek (.start 0) with
   | (.error e, a') => (.stop (.err (.io e)), { t1 with a := a' })
-  | (.ok _, a') => (.ok (), { t1 with a := a', ended := false })
+  | (.ok _, a') =>
+    (.ok (), { t1 with a := a', ended := false, prev := .stop,
+                       state := if t1.state = .stop then .stop else .play })
 
-def Tap.stop (t : Tap) : Tap := { t with prev := t.state, state := .stop }
+/-- `stop`: stopping a stopped deck keeps the remembered position -/
+def Tap.stop (t : Tap) : Tap :=
+  if t.state = .stop then t else { t with prev := t.state, state := .stop }
 
 def Tap.play (t : Tap) : Tap :=
   if t.state = .stop then
